@@ -7,6 +7,7 @@ import (
 	"fmt"
 	"go/ast"
 	"go/types"
+	"golang.org/x/tools/go/packages"
 	"strings"
 )
 
@@ -205,26 +206,132 @@ func c11Chunks(p *Prog, r *Report, rule string) {
 		})
 		r.Check(good, rule, "(*"+pkgDelivery+".Service).GetFile#chunk-bounds", p.pos(at), "the chunk sent is buf[:n] of the Read that filled it", "the server does not send exactly the n bytes the Read returned: the last chunk carries stale bytes of the previous one (or is cut)")
 	}
-	wk := "(*internal/utils/grpc/streamwriter.writer).Close"
-	if fi := p.Func(wk); fi != nil {
+	// ---- the stream writer (helpers of the writer type are followed) ----
+	const swPkg = "internal/utils/grpc/streamwriter"
+	selPred := func(name string) callPred {
+		return callPred{name: "sel:" + name, fn: func(pkg *packages.Package, c *ast.CallExpr) bool {
+			sel, ok := ast.Unparen(c.Fun).(*ast.SelectorExpr)
+			if !ok || sel.Sel.Name != name {
+				return false
+			}
+			// a method of the stream interface, not a helper of the writer itself
+			return p.staticCallee(pkg, c) == nil
+		}}
+	}
+	sendP, closeP := selPred("Send"), selPred("CloseAndRecv")
+	statusP := callPred{name: "stream-status", fn: func(pkg *packages.Package, c *ast.CallExpr) bool {
+		sel, ok := ast.Unparen(c.Fun).(*ast.SelectorExpr)
+		return ok && (sel.Sel.Name == "CloseAndRecv" || sel.Sel.Name == "RecvMsg") && p.staticCallee(pkg, c) == nil
+	}}
+	scope := p.methodsOf(swPkg, "writer")
+	inScope := map[string]bool{}
+	for _, k := range scope {
+		inScope[k] = true
+	}
+	nSend := 0
+	for _, k := range scope {
+		fi := p.Func(k)
 		info := fi.Pkg.TypesInfo
 		f := p.FlatOf(fi)
-		var sends, closes []int
 		for _, n := range f.Nodes {
 			if n.Ast == nil {
 				continue
 			}
 			for _, c := range callsIn(n.Ast, false) {
-				if sel, ok := c.Fun.(*ast.SelectorExpr); ok {
-					if sel.Sel.Name == "Send" {
-						sends = append(sends, n.ID)
-						f.SiteConsumed(r, rule, wk+"#send-error", fi, f.bindOf(n, c), flowOpts{Class: true})
-					}
-					if sel.Sel.Name == "CloseAndRecv" {
-						closes = append(closes, n.ID)
-						f.SiteConsumed(r, rule, wk+"#verdict-error", fi, f.bindOf(n, c), flowOpts{Class: true})
+				isSend, isClose := sendP.fn(fi.Pkg, c), closeP.fn(fi.Pkg, c)
+				derived := false
+				if callee := p.staticCallee(fi.Pkg, c); callee != nil && inScope[callee.Key] {
+					res := callee.Sig().Results()
+					if res.Len() > 0 && isErrorType(res.At(res.Len()-1).Type()) && (p.funcCalls(callee, sendP, false) || p.funcCalls(callee, closeP, false)) {
+						derived = true
 					}
 				}
+				if !isSend && !isClose && !derived {
+					continue
+				}
+				what := "send"
+				if isClose {
+					what = "verdict"
+				} else if derived {
+					what = "helper"
+				}
+				site := f.bindOf(n, c)
+				opts := flowOpts{Class: true}
+				if isSend {
+					nSend++
+					// an io.EOF from Send only says that the stream has ended: it may be replaced by the stream status (checked below)
+					opts.Tolerated = []string{"is:io.EOF"}
+				}
+				f.SiteConsumed(r, rule, fmt.Sprintf("%s#%s-error/%s", k, what, types.ExprString(c.Fun)), fi, site, opts)
+				if !isSend {
+					continue
+				}
+				// Send reports io.EOF when the receiving side has ended the stream; the reason is the stream status
+				cons := fmt.Sprintf("%s#send-eof-status/%s", k, types.ExprString(c.Fun))
+				if site.Kind != "assigned" || site.ErrVar == nil {
+					r.Viol(rule, cons, p.pos(c), "the error of Send is returned or used without testing it for io.EOF: when the server ends the stream early (empty key, no free space) the caller receives a bare io.EOF, which the client maps to ErrUnknown instead of the class the server reported")
+					continue
+				}
+				st := f.ErrStatesFrom(site.Node, site.ErrVar)
+				var tests []int
+				eofEdge := map[int]int{}
+				for _, cn := range f.Nodes {
+					if !cn.IsCond || len(st[cn.ID]) == 0 {
+						continue
+					}
+					ci := classifyCond(info, cn.Ast.(ast.Expr))
+					if ci.obj == site.ErrVar && (ci.kind == "is" || ci.kind == "isnot") && ci.arg == "io.EOF" {
+						lbl := 1
+						if (ci.kind == "isnot") != ci.neg {
+							lbl = 2
+						}
+						tests = append(tests, cn.ID)
+						eofEdge[cn.ID] = lbl
+					}
+				}
+				bad := ""
+				if len(tests) == 0 {
+					bad = "the error of Send is never tested for io.EOF"
+				} else {
+					ts := setOf(tests)
+					reach := f.Reach(f.succsOf(site.Node), func(x *GNode) bool { return ts[x.ID] }, func(from *GNode, e Edge) bool {
+						return len(st.along(from.ID, e.To)) > 0
+					})
+					for _, e := range f.Exits() {
+						if reach[e] && !f.isNoReturnExit(f.Nodes[e]) {
+							bad = "the error of Send can be returned at " + p.pos(f.Nodes[e].Ast) + " without having been tested for io.EOF"
+						}
+					}
+					status := setOf(f.NodesMust(statusP))
+					for _, t := range tests {
+						var starts []int
+						for _, e := range f.Nodes[t].Succs {
+							if e.Label == eofEdge[t] {
+								starts = append(starts, e.To)
+							}
+						}
+						rr := f.Reach(starts, func(x *GNode) bool { return status[x.ID] }, nil)
+						for _, e := range f.Exits() {
+							if rr[e] && !f.isNoReturnExit(f.Nodes[e]) {
+								bad = "after Send reported io.EOF the function can return at " + p.pos(f.Nodes[e].Ast) + " without fetching the stream status (CloseAndRecv)"
+							}
+						}
+					}
+				}
+				r.Check(bad == "", rule, cons, p.pos(c), "an io.EOF from Send is replaced by the stream status", bad+": when the server ends the stream early (empty key, no free space) the caller receives a bare io.EOF, which the client maps to ErrUnknown instead of the class the server reported")
+			}
+		}
+	}
+	r.Floor(rule, "stream-writer-Send-sites", nSend, 1)
+	wk := "(*" + swPkg + ".writer).Close"
+	if fi := p.Func(wk); fi != nil {
+		f := p.FlatOf(fi)
+		sends := f.NodesMust(sendP)
+		ss := setOf(sends)
+		var closes []int
+		for _, id := range f.NodesMay(closeP) {
+			if !ss[id] {
+				closes = append(closes, id)
 			}
 		}
 		// the remainder is flushed when non-empty: with len(data) > 0 the Send precedes CloseAndRecv
@@ -256,25 +363,12 @@ func c11Chunks(p *Prog, r *Report, rule string) {
 		})
 		ok := len(sends) > 0 && len(closes) > 0
 		for _, c := range closes {
-			if !g.MustPrecede(setOf(sends), c) {
+			if !g.MustPrecede(ss, c) {
 				ok = false
 			}
 		}
-		_ = info
 		r.Check(ok, rule, wk+"#flush-before-close", p.pos(fi.Decl), "a non-empty remainder is sent before CloseAndRecv", "the stream writer closes the stream without sending its buffered remainder: the tail of the content (less than one chunk) is lost")
-	}
-	ww := "(*internal/utils/grpc/streamwriter.writer).Write"
-	if fi := p.Func(ww); fi != nil {
-		f := p.FlatOf(fi)
-		for _, n := range f.Nodes {
-			if n.Ast == nil {
-				continue
-			}
-			for _, c := range callsIn(n.Ast, false) {
-				if sel, ok := c.Fun.(*ast.SelectorExpr); ok && sel.Sel.Name == "Send" {
-					f.SiteConsumed(r, rule, ww+"#send-error", fi, f.bindOf(n, c), flowOpts{Class: true})
-				}
-			}
-		}
+	} else {
+		r.Undecided(rule, wk, "", "not found")
 	}
 }
